@@ -6,7 +6,7 @@ from .readerlib import both_modes, dump_dict
 ID = 'C11'
 TARGETS = ['theories/Properties/C11.vo']
 THEOREMS = core.theorems_of(ID)
-LEVEL = ('proved (Properties/C11.v): for EVERY well-formed replay, with or without skip_frames, the reader consumes the whole file and the hashed prefix is the whole file (model: hashed bytes = consumed bytes; the skip path copies instead of seeking when hashing), no hash when not requested; independence of read fragmentation is exercised by the differential run with fragmenting readers (whole, 1-byte, fixed, irregular, two-piece); XXH3 itself is an oracle: the streaming digest of the real run is compared with the one-shot xxh3_64 over the same bytes')
+LEVEL = ("proved (Properties/C11.v): for EVERY well-formed replay, with or without skip_frames, the reader consumes the whole file and the hashed prefix is the whole file, no hash when not requested; for EVERY input and EVERY fragmentation schedule of the underlying stream (Model/Frag.v: std read_exact over short reads and Interrupted retries, hashing wrapper fed with what each read returned) the full read returns the flat model's game and the hasher saw exactly the consumed prefix (C11_digest_any_fragmentation; the skip path uses copy/seek rather than exact reads and is covered by the differential run); XXH3 itself and the 16-hex-digit formatting are an oracle: the streaming digest of the real run is compared with the one-shot xxh3_64 over the same bytes")
 
 
 def run(ctx):
